@@ -32,6 +32,13 @@ func ShutDown(
 		return err
 	}
 
+	var errCode = "shutdown_" + p.Type().String() + "_failed"
+	if err := smartcontractinterface.AuthorizeWithOwner(errCode, func() bool {
+		return ownerId == clientId || clientId == sp.GetSettings().DelegateWallet
+	}); err != nil {
+		return err
+	}
+
 	if p.IsKilled() || p.IsShutDown() {
 		if refreshProvider != nil {
 			err = refreshProvider(req)
@@ -50,13 +57,6 @@ func ShutDown(
 	}
 
 	if err = sp.Save(p.Type(), req.ID, balances); err != nil {
-		return err
-	}
-
-	var errCode = "shutdown_" + p.Type().String() + "_failed"
-	if err := smartcontractinterface.AuthorizeWithOwner(errCode, func() bool {
-		return ownerId == clientId || clientId == sp.GetSettings().DelegateWallet
-	}); err != nil {
 		return err
 	}
 
